@@ -167,6 +167,7 @@ pub fn entry_points() -> Vec<Ep> {
     use serde::de::IgnoredAny;
     vec![
         Ep { name: "value_from_slice", sem: Sem::Strict, utf8_only: false, pre: b"", post: b"", f: |b| sonic_rs::from_slice::<Value>(b).map(|v| dv(&v)) },
+        Ep { name: "value_from_slice_unchecked", sem: Sem::Strict, utf8_only: true, pre: b"", post: b"", f: |b| unsafe { sonic_rs::from_slice_unchecked::<Value>(b) }.map(|v| dv(&v)) },
         Ep { name: "value_from_str", sem: Sem::Strict, utf8_only: true, pre: b"", post: b"", f: |b| sonic_rs::from_str::<Value>(s(b)).map(|v| dv(&v)) },
         Ep { name: "value_from_reader", sem: Sem::Strict, utf8_only: false, pre: b"", post: b"", f: |b| sonic_rs::from_reader::<_, Value>(std::io::Cursor::new(b)).map(|v| dv(&v)) },
         Ep { name: "value_in_tuple", sem: Sem::Strict, utf8_only: false, pre: b"[", post: b"]", f: |b| sonic_rs::from_slice::<(Value,)>(&wrap(b"[", b, b"]")).map(|v| dv(&v.0)) },
